@@ -466,7 +466,22 @@ def R8_settle_always(run):
                                 (PM + "pino_calculate_fee_and_reward_growths", PM + "_pino_calculate_modify_liquidity", "pino_")):
         w = facts.need_fn(wrapper)
         run.touch(w)
-        cs = [bi for bi, t in w.calls() if callee_path(t) == inner and not w.blocks[bi]["c"]]
+        def through(f_, depth=0):
+            """blocks of f_ whose call goes (on every successful path of the callee) through `inner`"""
+            out_ = []
+            for bi, t in f_.calls():
+                p_ = callee_path(t)
+                if f_.blocks[bi]["c"] or not p_:
+                    continue
+                if p_ == inner:
+                    out_.append(bi)
+                elif depth < 2 and p_.rsplit("::", 1)[0] == inner.rsplit("::", 1)[0] and facts.fn(p_) is not None and facts.fn(p_) is not f_:
+                    g_ = facts.fn(p_)
+                    sub_ = through(g_, depth + 1)
+                    if len(sub_) == 1 and not cfg.success_reach(g_, 0, cut_blocks=sub_):
+                        out_.append(bi)
+            return out_
+        cs = through(w)
         ok = len(cs) == 1 and not cfg.success_reach(w, 0, cut_blocks=cs)
         run.check("R8", "settles@" + wrapper.rsplit("::", 1)[-1], ok, "%s can succeed without going through %s" % (wrapper, inner.rsplit("::", 1)[-1]), loc=w.loc(),
                   detail="%s(.., delta 0, ..) on every successful path" % inner.rsplit("::", 1)[-1])
